@@ -869,6 +869,13 @@ func (p *Parser) parseFunctionDefinition() ast.Expression {
 	// skip the `function` keyword
 	p.nextToken()
 
+	// The name of the function must be an identifier.
+	if !p.curTokenIs(token.IDENT) {
+		msg := fmt.Sprintf("expected a function name but got %s around %s", p.curToken.Literal, p.curToken.Position())
+		p.errors = append(p.errors, msg)
+		return nil
+	}
+
 	// Define a function with the identifier
 	lit := &ast.FunctionDefinition{Token: p.curToken}
 
